@@ -96,6 +96,7 @@ def reflinks_layer(ck):
     jobs = [('RefLinks%s.cfg' % t, sh) for sh in ['a', '[', ']', '!']] + [('RefLinksP%s.cfg' % t, sh) for sh in ['a', '[', ']', '(', ')']] + \
            [('RefLinksN%s.cfg' % t, sh) for sh in ['a', '[', ']', '(', ')']] + \
            [('RefLinksE%s.cfg' % t, sh) for sh in ['a', '[', ']', '!', '\\']] + \
+           [('RefLinksC%s.cfg' % t, sh) for sh in ['a', '[', ']', '!', '`']] + \
            [('RefLinksL%s.cfg' % t, sh) for sh in ['a', 'A', '[', ']']]           # {a, [, ], (, ), LF}: whitespace around the destination, a title in parentheses, line ends in link text and labels; {a, A, [, ], space}: labels are compared case-folded
 
     def one(job):
@@ -126,7 +127,7 @@ def reflinks_layer(ck):
             if got != want:
                 ck.violation('LinkRefs.html: source=%r expected=%r observed=%r' % (src, want, got),
                              {'input': src, 'expected': htmlnorm.normalize(want), 'observed': htmlnorm.normalize(got), 'clause': 'LinkRefs.html', 'classes': []})
-    if n < 430000 or links < 25000:
+    if n < 520000 or links < 30000:
         raise core.MachineryError('RefLinks.tla exported only %d texts (%d with a link or image)' % (n, links))
     ck.extra['reflinks_texts'] = n
     ck.extra['reflinks_texts_with_reference'] = links
